@@ -895,10 +895,10 @@ Proof.
     destruct (get_param t h) as [[n p]|] eqn:G.
     2:{ inv H. ssplit; auto. apply shk_refl. }
     destruct (get_param_some _ _ _ _ G) as (Sn & Dn & _).
-    destruct (vn_ranged v && negb (range_ok (frange (S (length (pt_slots t))) t n) (vn_f0 v) (vn_fmax v)))%bool.
+    destruct (vn_ranged v && negb (range_ok (frange_c (S (length (pt_slots t))) t n) (vn_f0 v) (vn_fmax v)))%bool.
     { inv H. ssplit; auto. apply shk_refl. }
     assert (Reg : forall t1 v1, inv_table t1 -> RI t1 (fun x => c0 x + cnt (vn_params v1) x) -> shk t t1 ->
-              let unk := match p_kind p with KUnknown _ _ | KCorrelated _ _ => true | _ => false end in
+              let unk := match p_kind p with KUnknown _ _ | KCorrelated _ _ _ => true | _ => false end in
               inv_table (hold t1 n) /\
               RI (hold t1 n) (fun x => c0 x + cnt (vn_params v1 ++ [n]) x) /\ shk t (hold t1 n)).
     { intros t1 v1 I1 R1 K1 unk. split; [apply inv_table_hold; auto|]. split.
@@ -1135,7 +1135,7 @@ Lemma write_back_good : forall t v h c,
 Proof.
   intros t v h c I R. unfold write_back. destruct (slot t h) as [p|] eqn:S.
   - set (sv := if vn_nf v =? 0 then Unsolved else Solved _ _).
-    set (k := match p_kind p with KUnknown o _ => KUnknown o sv | KCorrelated o _ => KCorrelated o sv | k0 => k0 end).
+    set (k := match p_kind p with KUnknown o _ => KUnknown o sv | KCorrelated o sf0 _ => KCorrelated o sf0 sv | k0 => k0 end).
     assert (E : other_of k = other_of (p_kind p)) by (unfold k; destruct (p_kind p); auto).
     ssplit.
     + eapply inv_table_set_some; eauto.
@@ -1214,11 +1214,22 @@ Proof.
     destruct (get_param (st_pt s) h) as [[n0 p]|] eqn:Gp; [|simpl; ssplit; auto; discriminate].
     destruct (get_param_some _ _ _ _ Gp) as (Sn & _).
     destruct (n <? 1)%Z; [simpl; ssplit; auto; discriminate|].
+    assert (FM : forall sfx,
+              Good (fst (finish_make s (alloc_param (st_pt s) (KCorrelated n0 sfx Unsolved) fail) (fun t => hold t n0))) /\
+              st_freed (fst (finish_make s (alloc_param (st_pt s) (KCorrelated n0 sfx Unsolved) fail) (fun t => hold t n0))) = false /\
+              o_ret (snd (finish_make s (alloc_param (st_pt s) (KCorrelated n0 sfx Unsolved) fail) (fun t => hold t n0))) <> RFault).
+    { intros sfx.
+      destruct (finish_make_good s (KCorrelated n0 sfx Unsolved) fail (fun t => hold t n0) Fr G) as (A & B & C & _); auto.
+      right. exists n0, p. auto. }
+    destruct (negb (1 <? n)%Z); [apply FM|].
+    destruct sf as [sfv|].
+    { destruct (negb (Z.of_nat (length sfv) =? n)%Z); [simpl; ssplit; auto; discriminate|].
+      destruct (existsb (fun f => (f <? 0)%Z) sfv || negb (ascending sfv))%bool; [simpl; ssplit; auto; discriminate|].
+      match goal with |- context [if ?b then (s, fail_usage) else _] => destruct b end; [simpl; ssplit; auto; discriminate|].
+      apply FM. }
     match goal with |- context [if negb ?b then _ else _] => destruct b end;
       [|simpl; ssplit; auto; discriminate].
-    simpl negb. cbv iota.
-    destruct (finish_make_good s (KCorrelated n0 Unsolved) fail (fun t => hold t n0) Fr G) as (A & B & C & _); auto.
-    right. exists n0, p. auto.
+    simpl negb. cbv iota. apply FM.
   - (* delete_parameter *)
     destruct ((0 <=? h)%Z && (h <? 3)%Z)%bool eqn:H3; [simpl; ssplit; auto; discriminate|].
     destruct (get_param (st_pt s) h) as [[n p]|] eqn:Gp; [|simpl; ssplit; auto; discriminate].
@@ -1231,7 +1242,7 @@ Proof.
   - (* get_parameter_value *)
     simpl. ssplit; auto. unfold get_value.
     destruct (get_param (st_pt s) h) as [[n p]|]; simpl; try discriminate.
-    destruct (p_kind p) as [g|fs gs|o [|fs gs]|o [|fs gs]]; simpl; try discriminate;
+    destruct (p_kind p) as [g|fs gs|o [|fs gs]|o sf0 [|fs gs]]; simpl; try discriminate;
       unfold table_value;
       match goal with |- context [if ?b then _ else _] => destruct b end; simpl; try discriminate;
       match goal with |- context [index_of ?a ?b] => destruct (index_of a b) end; simpl; discriminate.
@@ -1549,7 +1560,7 @@ Proof.
 Qed.
 
 Definition is_make (o : op) : bool :=
-  match o with OMakeScalar _ _ | OMakeVector _ _ _ | OMakeUnknown _ _ | OMakeCorrelated _ _ _ => true | _ => false end.
+  match o with OMakeScalar _ _ | OMakeVector _ _ _ | OMakeUnknown _ _ | OMakeCorrelated _ _ _ _ => true | _ => false end.
 
 Lemma finish_make_fresh : forall s k fl after s' z,
   inv_table (st_pt s) ->
@@ -1609,6 +1620,12 @@ Proof.
   - destruct (get_param (st_pt s) h) as [[n0 p]|] eqn:Gp; [|inv H].
     destruct (get_param_some _ _ _ _ Gp) as (Sn & _).
     destruct (n <? 1)%Z; [inv H|].
+    destruct (negb (1 <? n)%Z); [eapply Fin; eauto|].
+    destruct sf as [sfv|].
+    { destruct (negb (Z.of_nat (length sfv) =? n)%Z); [inv H|].
+      destruct (existsb (fun f => (f <? 0)%Z) sfv || negb (ascending sfv))%bool; [inv H|].
+      match type of H with context [if ?b then (s, fail_usage) else _] => destruct b end; [inv H|].
+      eapply Fin; eauto. }
     match type of H with context [if negb ?b then _ else _] => destruct b end; [|inv H].
     simpl negb in H. cbv iota in H. eapply Fin; eauto.
 Qed.
@@ -1897,6 +1914,12 @@ Proof.
   - destruct (get_param (st_pt s) h0) as [[n p]|]; [|apply keeps_refl]. apply finish_make_keeps; eauto.
   - destruct (get_param (st_pt s) h0) as [[n0 p]|]; [|apply keeps_refl].
     destruct (n <? 1)%Z; [apply keeps_refl|].
+    destruct (negb (1 <? n)%Z); [apply finish_make_keeps; eauto|].
+    destruct sf as [sfv|].
+    { destruct (negb (Z.of_nat (length sfv) =? n)%Z); [apply keeps_refl|].
+      destruct (existsb (fun f => (f <? 0)%Z) sfv || negb (ascending sfv))%bool; [apply keeps_refl|].
+      match goal with |- context [if ?b then (s, fail_usage) else _] => destruct b end; [apply keeps_refl|].
+      apply finish_make_keeps; eauto. }
     match goal with |- context [if negb ?b then _ else _] => destruct b end; [|apply keeps_refl].
     simpl negb. cbv iota. apply finish_make_keeps; eauto.
   - (* delete of another handle *)
